@@ -14,6 +14,14 @@ class Unsupported(Exception):
     """The expression uses a construct the normaliser does not model (callers fail closed)."""
 
 
+class Return(Exception):
+    """`return v` reached while evaluating a path; carries the returned value to the function boundary / path split."""
+
+    def __init__(self, value):
+        Exception.__init__(self, "return")
+        self.value = value
+
+
 # ------------------------------------------------------------------------------------------------ polynomials
 def _srt(xs):
     return tuple(sorted(xs, key=repr))
@@ -383,6 +391,15 @@ def vfmt(v):
     return repr(v)
 
 
+MUTATORS = {"push", "push_back", "insert", "extend", "push_str", "append", "clear", "sort", "sort_keys", "dedup", "truncate", "remove", "pop"}
+
+
+def strip_refs(e):
+    while e.get("k") == "ref" or (e.get("k") == "un" and e.get("op") == "Deref"):
+        e = e["e"]
+    return e
+
+
 NUMERIC_ADTS = ("dual::dual::Dual", "dual::dual::Dual2")
 ERASE_METHODS = {"clone", "view", "to_owned", "into", "borrow", "as_ref", "to_vec", "into_owned", "view_mut", "cloned", "copied", "deref", "reborrow"}
 F64_UNARY = {"exp": "exp", "ln": "ln", "log": "ln", "sqrt": "sqrt", "trunc": "trunc", "signum": "signum"}
@@ -411,6 +428,7 @@ class Ev:
         self._summary = {}
         self.zero_shapes = []         # shapes passed to zeros(..) constructors during the last evaluation
         self.guards, self.loops = [], []   # path condition / enclosing loops while executing loop bodies for effect
+        self.path = []                     # conditions already decided on the current forked path (for pruning re-tests)
 
     # ---- function summaries
     def apply_fn(self, name, args, depth):
@@ -425,7 +443,14 @@ class Ev:
             raise Unsupported("arity mismatch calling " + name)
         for p, a in zip(r["params"], args):
             self.bind(p, a, env)
-        return self.collapse(self.eval(r["body"], env, depth + 1))
+        saved = (self.guards, self.loops, self.path)
+        self.guards, self.loops, self.path = [], [], list(self.path) if depth else []
+        try:
+            return self.collapse(self.eval(r["body"], env, depth + 1))
+        except Return as ret:
+            return ret.value
+        finally:
+            self.guards, self.loops, self.path = saved
 
     def collapse(self, v):
         """Alternatives that are all equal collapse to the single value."""
@@ -576,9 +601,12 @@ class Ev:
                 # x % y = x - trunc(x/y)*y  (f64 and integer remainder alike, as an identity over the reals)
                 return l - func_atom("trunc", l * r.inv()) * r
             if op in ("Eq", "Ne", "Lt", "Le", "Gt", "Ge"):
-                return cmp_sym(op, l, r)
+                lt = (e["l"].get("ty") or "").replace("&", "").strip()
+                return cmp_sym(op, l, r, lt in INT_TYPES)
         if op in ("Eq", "Ne", "Lt", "Le", "Gt", "Ge"):
             return Sym("cmp", op, vkey(l), vkey(r))
+        if isinstance(l, Sym) or isinstance(r, Sym):
+            return Sym("op", op, vkey(l), vkey(r))    # opaque arithmetic on opaque values (dates + Days, ...)
         raise Unsupported("binary %s on %s, %s" % (op, vfmt(l)[:60], vfmt(r)[:60]))
 
     def ev_field(self, e, env, depth):
@@ -650,16 +678,30 @@ class Ev:
                     rhs = self.eval(x["r"], env, depth)
                     self.assign(x["l"], self.arith(x["op"], cur, rhs, x, depth), env)
                 elif x.get("k") == "ret":
-                    return Sym("return", vkey(self.eval(x["e"], env, depth)) if "e" in x else None)
-                elif x.get("k") == "for":
+                    raise Return(self.eval(x["e"], env, depth) if "e" in x else Sym("unit"))
+                elif x.get("k") in ("for", "while"):
                     self.exec_stmt(x, env, depth)
                 elif x.get("k") in ("if", "match") and x.get("ty") in ("()", None) and not self.loops:
                     # statement-level branching with effects: fork the rest of the block per arm
                     out = []
                     for g, env_i in self.stmt_arms(x, env, depth):
-                        out.append((g, self._run_block(e, i + 1, env_i, depth)))
+                        if isinstance(env_i, Return):
+                            out.append((g, env_i))
+                            continue
+                        self.path.append(g)
+                        try:
+                            out.append((g, self._run_block(e, i + 1, env_i, depth)))
+                        except Return as ret:
+                            out.append((g, ret))
+                        finally:
+                            self.path.pop()
+                    if all(isinstance(v, Return) for _, v in out):
+                        if len(out) == 1:
+                            raise out[0][1]
+                        raise Return(Alt([(g, v.value) for g, v in out]))
+                    out = [(g, v.value if isinstance(v, Return) else v) for g, v in out]
                     return out[0][1] if len(out) == 1 else self.collapse(Alt(out))
-                elif x.get("k") in ("while", "loop"):
+                elif x.get("k") in ("loop",):
                     raise Unsupported("statement-level control flow (%s) at line %s" % (x["k"], x.get("ln")))
                 elif x.get("k") == "mcall" and x["m"] == "clone_from" and x["recv"].get("k") == "path" and x["recv"].get("res") == "local":
                     env[x["recv"]["id"]] = self.eval(x["args"][0], env, depth)
@@ -688,8 +730,15 @@ class Ev:
                         self.bind_pat_loose(a["pat"], scrut, env2)
                     except Unsupported:
                         pass
-                self.exec_stmt(a["body"], env2, depth)
-                out.append((("arm", pat_key(a["pat"]), vkey(scrut)), env2))
+                g = ("arm", pat_key(a["pat"]), vkey(scrut))
+                self.path.append(g)
+                try:
+                    self.exec_stmt(a["body"], env2, depth)
+                    out.append((g, env2))
+                except Return as ret:
+                    out.append((g, ret))
+                finally:
+                    self.path.pop()
                 if r is True:
                     return [out[-1]] if len(out) == 1 else out
             return out
@@ -702,13 +751,36 @@ class Ev:
         else:
             g = ("if", vkey(self.eval(c, env, depth)))
             env2 = fork_env(env)
-        self.exec_stmt(x["t"], env2, depth)
-        out.append((g, env2))
-        env3 = fork_env(env)
-        if "e" in x:
-            self.exec_stmt(x["e"], env3, depth)
-        out.append((("not", g), env3))
+        decided = self.decided(g)
+        if decided is not False:
+            self.path.append(g)
+            try:
+                self.exec_stmt(x["t"], env2, depth)
+                out.append((g, env2))
+            except Return as ret:
+                out.append((g, ret))
+            finally:
+                self.path.pop()
+        if decided is not True:
+            env3 = fork_env(env)
+            self.path.append(("not", g))
+            try:
+                if "e" in x:
+                    self.exec_stmt(x["e"], env3, depth)
+                out.append((("not", g), env3))
+            except Return as ret:
+                out.append((("not", g), ret))
+            finally:
+                self.path.pop()
         return out
+
+    def decided(self, g):
+        """True / False if the condition g was already decided on the current path, else None."""
+        if g in self.path:
+            return True
+        if ("not", g) in self.path:
+            return False
+        return None
 
     def exec_block(self, b, env, depth):
         for s in b["stmts"]:
@@ -801,11 +873,49 @@ class Ev:
         if k == "mcall" and x["m"] == "clone_from" and x["recv"].get("k") == "path" and x["recv"].get("res") == "local":
             env[x["recv"]["id"]] = self.eval(x["args"][0], env, depth)
             return
-        if k in ("while", "loop"):
+        if k == "while":
+            return self.exec_while(x, env, depth)
+        if k == "loop":
             raise Unsupported("loop form not modelled at line %s" % x.get("ln"))
+        if k == "mcall" and x["m"] in MUTATORS and strip_refs(x["recv"]).get("k") == "path" and strip_refs(x["recv"]).get("res") == "local":
+            rid = strip_refs(x["recv"])["id"]
+            env[rid] = Sym("mut", x["m"], vkey(env.get(rid)), tuple(vkey(self.eval(a, env, depth)) for a in x["args"]))
+            return
+        if k == "ret":
+            raise Return(self.eval(x["e"], env, depth) if "e" in x else Sym("unit"))
         self.eval(x, env, depth)
 
+    def exec_while(self, x, env, depth):
+        """`while C { B }` as the fixed iteration of its assigned locals: each becomes iterate(k; inits; C(@); steps(@))."""
+        assigned = []
+        for e in hir.walk(x["body"]):
+            tgt = None
+            if e.get("k") in ("assign", "assignop"):
+                tgt = strip_refs(e["l"])
+            elif e.get("k") == "mcall" and e["m"] in MUTATORS:
+                tgt = strip_refs(e["recv"])
+            if tgt is not None and tgt.get("k") == "path" and tgt.get("res") == "local" and tgt["id"] in env and tgt["id"] not in assigned:
+                assigned.append(tgt["id"])
+        if not assigned:
+            raise Unsupported("while loop that assigns no local at line %s" % x.get("ln"))
+        env2 = dict(env)
+        for k_, vid in enumerate(assigned):
+            env2[vid] = Poly.atom(("loopvar", k_)) if isinstance(env[vid], Poly) else Sym("loopvar", k_)
+        cond = self.eval(x["c"], env2, depth)
+        saved = self.loops
+        self.loops = []      # a while body is executed in sequence mode, not as an array comprehension
+        try:
+            self.exec_stmt(x["body"], env2, depth)
+        finally:
+            self.loops = saved
+        inits = tuple(vkey(env[v]) for v in assigned)
+        steps = tuple(vkey(env2[v]) for v in assigned)
+        for k_, vid in enumerate(assigned):
+            tag = ("iterate", k_, inits, vkey(cond), steps)
+            env[vid] = Poly.atom(tag) if isinstance(env[vid], Poly) else Sym(*tag)
+
     def arith(self, op, l, r, e, depth):
+        op = op.replace("Assign", "")
         if isinstance(l, Rec) or isinstance(r, Rec):
             return self.overloaded(e, [l, r], depth)
         if not (isinstance(l, Poly) and isinstance(r, Poly)):
@@ -827,10 +937,36 @@ class Ev:
             raise Unsupported("assignment to a non-local place at line %s" % lhs.get("ln"))
 
     def ev_if(self, e, env, depth):
-        c = self.eval(e["c"], env, depth)
-        t = self.eval(e["t"], dict(env), depth)
-        f = self.eval(e["e"], dict(env), depth) if "e" in e else Sym("unit")
-        return Alt([(("if", vkey(c)), t), (("else", vkey(c)), f)])
+        if e["c"].get("k") == "letx":
+            v = self.eval(e["c"]["init"], env, depth)
+            env2 = dict(env)
+            r = self.match_pat(e["c"]["pat"], v, env2)
+            if r is True:
+                return self.eval(e["t"], env2, depth)
+            if r is False:
+                return self.eval(e["e"], dict(env), depth) if "e" in e else Sym("unit")
+            g = ("arm", pat_key(e["c"]["pat"]), vkey(v))
+            env2 = dict(env)
+            self.bind_pat_loose(e["c"]["pat"], v, env2)
+        else:
+            g = ("if", vkey(self.eval(e["c"], env, depth)))
+            env2 = dict(env)
+        d = self.decided(g)
+        if d is True:
+            return self.eval(e["t"], env2, depth)
+        if d is False:
+            return self.eval(e["e"], dict(env), depth) if "e" in e else Sym("unit")
+        self.path.append(g)
+        try:
+            t = self.eval(e["t"], env2, depth)
+        finally:
+            self.path.pop()
+        self.path.append(("not", g))
+        try:
+            f = self.eval(e["e"], dict(env), depth) if "e" in e else Sym("unit")
+        finally:
+            self.path.pop()
+        return Alt([(g, t), (("not", g), f)])
 
     def match_pat(self, pat, val, env):
         """Structural pattern match of a symbolic value: True / False / None (cannot decide)."""
@@ -917,7 +1053,7 @@ class Ev:
         return Sym("diverges", e.get("name"))
 
     def ev_ret(self, e, env, depth):
-        return Sym("return", vkey(self.eval(e["e"], env, depth)) if "e" in e else None)
+        raise Return(self.eval(e["e"], env, depth) if "e" in e else Sym("unit"))
 
     def ev_try(self, e, env, depth):
         return self.eval(e["e"], env, depth)
@@ -984,6 +1120,10 @@ class Ev:
             return Tup([])
         if (d.endswith("Arc::<T>::new") or d.endswith("Box::<T>::new")) and len(args) == 1:
             return args[0]
+        if last in ("from", "into") and len(args) == 1 and isinstance(args[0], Poly) and args[0].order == 0 and not self.facts.fn(d):
+            return args[0]            # lossless numeric widening
+        if last in ("try_from", "try_into") and len(args) == 1 and isinstance(args[0], Poly) and args[0].order == 0 and not self.facts.fn(d):
+            return Sym("ctor", "Ok", args[0])
         if last == "from_iter" and len(args) == 1:
             if isinstance(args[0], Seq):
                 return Coll(args[0])
@@ -1071,8 +1211,10 @@ class Ev:
                 return powf(recv, args[0])
             if m == "powi" and len(args) == 1 and isinstance(args[0], Poly) and args[0].const_value() is not None:
                 return recv.pow_int(int(args[0].const_value()))
-            if m == "abs" and not args:
+            if m in ("abs", "unsigned_abs") and not args:
                 return func_atom("abs", recv)
+            if m in ("try_into",) and not args and recv.order == 0:
+                return Sym("ctor", "Ok", recv)
             if m == "mul_add" and len(args) == 2:
                 return recv * args[0] + args[1]
             if m in ("partial_cmp", "cmp", "total_cmp") and len(args) == 1:
@@ -1144,9 +1286,16 @@ def as_poly(v):
     raise Unsupported("expected a numeric value, got " + vfmt(v)[:80])
 
 
-def cmp_sym(op, l, r):
-    """Canonical comparison: (relation, l - r) with Gt/Ge mirrored to Lt/Le."""
+INT_TYPES = {"i8", "i16", "i32", "i64", "i128", "isize", "u8", "u16", "u32", "u64", "u128", "usize"}
+
+
+def cmp_sym(op, l, r, integer=False):
+    """Canonical comparison: (relation, l - r) with Gt/Ge mirrored to Lt/Le; over the integers a <= b is a < b + 1."""
     d = l - r
+    if integer and op in ("Le", "Ge"):
+        if op == "Le":
+            return Sym("cmp", "Lt", (d - Poly.const(1)).key())
+        return Sym("cmp", "Lt", (-d - Poly.const(1)).key())
     if op in ("Eq", "Ne") and d.t:
         lead = sorted(d.t.items(), key=lambda kv: repr(kv[0]))[0][1]
         if lead < 0:
